@@ -59,6 +59,10 @@ factor_remap = {
 }
 
 
+# functions that take any number of arguments in the function form (their methods take one other)
+_n_ary_function_names = {"coalesce", "concat", "maximum", "minimum", "fmax", "fmin"}
+
+
 def _walk_lark_tree(op, *, data_def=None) -> data_algebra.expr_rep.Term:
     """
     Walk a lark parse tree and return our own representation.
@@ -222,7 +226,17 @@ def _walk_lark_tree(op, *, data_def=None) -> data_algebra.expr_rep.Term:
                         and callable(getattr(data_algebra.expr_rep.Term, op_name, None))
                     ):
                         # f(x, ...) for a method f is x.f(...): the method checks its arguments
-                        return getattr(args[0], op_name)(*args[1:])
+                        built = None
+                        try:
+                            built = getattr(args[0], op_name)(*args[1:])
+                        except AssertionError:
+                            pass  # e.g. a None argument: the plain function form, as before
+                        except TypeError:
+                            if op_name not in _n_ary_function_names:
+                                raise
+                        if isinstance(built, data_algebra.expr_rep.PreTerm):
+                            return built
+                        # not an expression building method (is_equal, to_python ...), or one taking any number of arguments
                     return data_algebra.expr_rep.Expression(op=op_name, args=args)
             if r_op.data in {"or_test", "or_test_sym", "and_test", "and_test_sym"}:
                 if len(r_op.children) < 2:
